@@ -407,7 +407,7 @@ func c17R4(a *A, r *Roles, ar *Arms) {
 					a.viol(rule, fmt.Sprintf("reject-effect@parser#%d", n), w.posOf(x), "the rejecting path moves the position")
 				}
 			case *ssa.Call:
-				if x.Common().Value == ssa.Value(r.CommitMC) || x.Common().Value == ssa.Value(r.BeginMC) {
+				if r.isRoleCall(x, r.Commit, r.CommitMC) || r.isRoleCall(x, r.Begin, r.BeginMC) {
 					n++
 					a.viol(rule, fmt.Sprintf("reject-effect@parser#%d", n), w.posOf(x), "the rejecting path calls begin/commit: a partial transaction is delivered")
 				}
